@@ -503,6 +503,34 @@ func cmdCheck(args []string) int {
 		},
 		"assumptions": dedup(assumptions), "wall_s": round3(time.Since(t0).Seconds()), "violations": len(violations),
 	}
+	// trust-base validation (bounded; reported separately, never counted as discharged): the regexp closed form
+	usesRegexp := false
+	for a := range e.assumptionsUsed {
+		if strings.Contains(a, "regexp ") && strings.Contains(a, "closed form") {
+			usesRegexp = true
+		}
+	}
+	if usesRegexp {
+		bound, probes := 6, 120
+		if *tier == "thorough" {
+			bound, probes = 8, 600
+		}
+		var tb []map[string]interface{}
+		for _, r := range e.sampleRegexps(bound, probes) {
+			tb = append(tb, map[string]interface{}{"what": "regexp closed form vs regexp package (exhaustive over {- = a : / \\n} up to the bound) and vs its SMT rendering (probes)",
+				"pattern": r.Pattern, "bound_length": r.Bound, "strings_compared": r.Strings, "smt_probes": r.SMTProbes, "mismatch": r.Mismatch, "label": "bounded"})
+			if r.Mismatch != "" {
+				os.MkdirAll(replayDir, 0o755)
+				rp := filepath.Join(replayDir, "trustbase_regexp.json")
+				data, _ := json.MarshalIndent(map[string]interface{}{"obligation": "trustbase/regexp-closed-form", "pattern": r.Pattern, "failing_input_found": true, "mismatch": r.Mismatch}, "", " ")
+				os.WriteFile(rp, data, 0o644)
+				violations = append(violations, fmt.Sprintf("VIOLATION property=%s replay=%s", *prop, rp))
+				fmt.Printf("FAILED-OBLIGATION trustbase/regexp-closed-form :: %s\n", r.Mismatch)
+			}
+		}
+		ev["trust_base_validation"] = tb
+		ev["violations"] = len(violations)
+	}
 	if len(obls) == 0 {
 		fmt.Printf("VIOLATION property=%s replay=%s no-failing-input-found\n", *prop, "none")
 		fmt.Println("no obligations were generated for this property (vacuous check)")
